@@ -153,6 +153,12 @@ def discharge(f, b, L, I, arr):
         r = loop_scanner(f, b, I, target, arr, facts)
         if r:
             return r
+    # cursor idiom: a variable that starts at len and only ever shrinks, read at `cursor - k` (k >= 1): the index is < len (that the
+    # subtraction does not wrap is R-ARITH's obligation, not this one)
+    J = I[1] if I[0] == "field" and I[2] == "0" else I
+    if J[0] == "bin" and J[1] == "Sub" and J[2][0] == "var" and J[3][0] == "const" and isinstance(J[3][1], int) and J[3][1] >= 1 and arr is not None \
+            and cursor_from_len(f, J[2][1], arr):
+        return "cursor idiom: %s starts at len of the same text and only shrinks, read at cursor - %d" % (show(J[2]), J[3][1])
     if I[0] == "const" and isinstance(I[1], int) and target:
         need = I[1] + 1
         for fct in facts:
@@ -190,6 +196,31 @@ def counter_from_zero(f, l):
             continue
         return False
     return True
+
+
+def cursor_from_len(f, l, arr):
+    ds = f.defs.get(l, [])
+    if not ds:
+        return False
+    seeded = False
+    for df in ds:
+        if len(df[3]) != 1:
+            return False
+        if df[0] == "call":
+            t = df[4]
+            if (t.get("fn") or "").endswith("::len") and len(t["args"]) == 1 and base(f.desc_op(t["args"][0])) == arr:
+                seeded = True
+                continue
+            return False
+        if df[0] != "s":
+            return False
+        d = strip(f.desc_rvalue(df[4]))
+        if d[0] == "field" and d[2] == "0":
+            d = d[1]
+        if d[0] == "bin" and d[1] == "Sub" and d[2] == ("var", l) and d[3][0] == "const" and isinstance(d[3][1], int) and d[3][1] >= 0:
+            continue
+        return False
+    return seeded
 
 
 def loop_scanner(f, b, I, target, arr, facts):
